@@ -349,6 +349,18 @@ class Interp(ExprMixin):
             v = self.eval(k.value, st)
             if k.arg is None:
                 known = _known_mapping(v)
+                if known is None:
+                    # **TABLE with TABLE a module-level dict display of constants: read it by value
+                    d = dotted(k.value)
+                    tgt = self.repo.resolve_name(self.cur.module, d) if d and d.split('.')[0] not in st.env else None
+                    if isinstance(tgt, tuple) and tgt[0] == 'global' and isinstance(tgt[1].globals.get(tgt[2]), ast.Dict):
+                        from .expr import _table_expr
+                        if _table_expr(tgt[1].globals[tgt[2]]):
+                            prev, self.literal_tables = self.literal_tables, True
+                            try:
+                                known = _known_mapping(self.target_value(tgt, d))
+                            finally:
+                                self.literal_tables = prev
                 if known is not None:
                     kwargs.update(known)        # **{...} / **dict(...) / forwarded **kwargs with known keys
                     continue
